@@ -171,6 +171,9 @@ class Analyzer:
         self.rule_c06a = False
         self.soft_widen_on = bool(os.environ.get("SOFT_WIDEN"))
         self.rpo_worklist = bool(os.environ.get("E4_RPO"))   # process the worklist in reverse post-order instead of FIFO
+        self.track_loads = False   # ghost cells "ghost:ld:<local>" = position a loaded byte came from (rule C07.f)
+        self.load_base = {}
+        self.cell_index = {}   # byte cell key -> (base, position Lin) for every element place resolved so far
         self.deadline = None   # wall-clock limit (time.time()) for the fixpoint iterations
         self.split_returns = False   # keep the return paths of the outermost analysed body apart (tiny bodies only)
 
@@ -361,7 +364,9 @@ class Analyzer:
         sl = cur[1]
         idx = self.load(st, ("loc", cur[2]), {"k": "int", "bits": 64, "signed": False})
         pos = sl.off + self.as_int(st, idx)
-        return f"{sl.base}@[{pos}]"
+        key = f"{sl.base}@[{pos}]"
+        self.cell_index[key] = (sl.base, pos)
+        return key
 
     def read_place(self, st, fr, place):
         cur = self.resolve_place(st, fr, place)
@@ -1222,6 +1227,21 @@ class Analyzer:
                     v = self.rvalue(st, fr, s["rv"], s["place"]["ty"], s.get("at"))
                     for m in self.moved: st.mem.pop(m, None)
                     self.write_place(st, fr, s["place"], v)
+                    if self.track_loads and not s["place"]["proj"] and s["rv"]["k"] in ("use", "cast") and s["rv"]["x"].get("k") in ("copy", "move"):
+                        # ghost: remember at which position of which buffer the byte now held by this local was read
+                        spl = s["rv"]["x"]["place"]; dst = f"{fr}._{s['place']['local']}"
+                        st.mem.pop("ghost:ld:" + dst, None)
+                        if spl["proj"] and spl["proj"][-1]["k"] == "index":
+                            try:
+                                cur_ = self.resolve_place(st, fr, spl)
+                                if cur_[0] == "byte":
+                                    base_, pos_ = self.cell_index[self.byte_loc(st, cur_)]
+                                    st.mem["ghost:ld:" + dst] = Int(pos_); self.load_base[dst] = base_
+                            except Unmodelled:
+                                pass
+                        elif not spl["proj"] and ("ghost:ld:" + f"{fr}._{spl['local']}") in st.mem:
+                            st.mem["ghost:ld:" + dst] = st.mem["ghost:ld:" + f"{fr}._{spl['local']}"]
+                            self.load_base[dst] = self.load_base.get(f"{fr}._{spl['local']}")
                 elif s["k"] == "setdiscr":
                     pass
                 elif s["k"] == "dead":
@@ -1627,6 +1647,12 @@ def m_from_residual(an, st, args, dty, site, callee, t):
 def m_opaque(an, st, args, dty, site, callee, t):
     return ret1(st, an.default_value(st, dty, fresh("tmp")))
 
+def m_widen_from(an, st, args, dty, site, callee, t):
+    """<uM as From<uN>>::from for integer types: lossless widening"""
+    v = args[0]
+    if isinstance(v, Int): return ret1(st, v)
+    return m_opaque(an, st, args, dty, site, callee, t)
+
 def m_into_enum_const(an, st, args, dty, site, callee, t):
     v = args[0]
     if isinstance(v, Enum) and v.discr.is_const():
@@ -1994,6 +2020,31 @@ def m_panic(an, st, args, dty, site, callee, t):
 def m_any(an, st, args, dty, site, callee, t):
     return ret1(st, Bool("unk"))
 
+def m_all_any(an, st, args, dty, site, callee, t):
+    """Iterator::all / any with a local closure over a Range<usize>: the verdict stays unknown, but the closure body is analysed once
+    for a generic element start <= j < end (its potential panics and probes are seen in the caller's terms)."""
+    r, clo = (args + [None, None])[:2]
+    rng = st.mem.get(r.loc) if isinstance(r, Ref) else r
+    if isinstance(rng, Enum) and rng.adt.startswith("std::ops::Range") and isinstance(clo, Enum) and clo.adt.startswith("(closure)") \
+            and clo.adt[len("(closure)"):] in an.fns and isinstance(rng.fields.get((0, 0)), Int) and isinstance(rng.fields.get((0, 1)), Int):
+        out = []
+        s1 = st.copy()
+        j = s1.fresh_int({"k": "int", "bits": 64, "signed": False}, "j")
+        s1.C.add(ge(j.e, rng.fields[(0, 0)].e)); s1.C.add(lt(j.e, rng.fields[(0, 1)].e))
+        if not s1.C.infeasible():
+            ck = clo.adt[len("(closure)"):]
+            env = clo
+            if an.fns[ck]["locals"][1].get("k") == "ref":     # FnMut / Fn: the body receives a reference to the closure
+                cell = fresh("obj")
+                s1.mem[cell] = clo
+                env = Ref(cell)
+            for s2, rv in an.analyze(ck, [env, j], s1):
+                out.append((s2, Bool("unk")))
+        s0 = st.copy()
+        out.append((s0, Bool("unk")))
+        return out
+    return ret1(st, Bool("unk"))
+
 MODELS = {
     "std::vec::Vec::<T, A>::len": m_len,
     "std::vec::Vec::<T, A>::is_empty": m_is_empty,
@@ -2028,7 +2079,7 @@ MODELS = {
     "<std::iter::Enumerate<I> as std::iter::Iterator>::next": m_iter_next,
     "<std::slice::Iter<'a, T> as std::iter::Iterator>::next": m_iter_next,
     "<std::slice::Iter<'a, T> as std::iter::Iterator>::any": m_any,
-    "std::iter::Iterator::all": m_any,
+    "std::iter::Iterator::all": m_all_any,
     "std::option::Option::<T>::and_then": m_and_then,
     "std::cmp::max": m_max,
     "std::array::<impl std::ops::Index<I> for [T; N]>::index": m_array_index,
@@ -2077,6 +2128,8 @@ MODELS = {
     "core::slice::<impl [T]>::last": m_opaque,
     "core::slice::<impl [T]>::first": m_opaque,
     "core::slice::<impl [u8]>::eq_ignore_ascii_case": m_opaque,
+    "core::slice::ascii::<impl [u8]>::eq_ignore_ascii_case": m_opaque,
+    "core::slice::ascii::<impl [u8]>::is_ascii": m_opaque,
     "std::str::from_utf8": m_opaque,
     "core::str::converts::from_utf8": m_opaque,
     "hex::decode": m_opaque,
@@ -2085,6 +2138,8 @@ MODELS = {
     "core::panicking::assert_failed": m_panic,
 }
 PREFIX_MODELS = [
+    ("std::convert::num::<impl std::convert::From<u", m_widen_from),
+    ("core::convert::num::<impl std::convert::From<u", m_widen_from),
     ("anyhow::", m_opaque),
     ("<errors::DSError as anyhow::", m_opaque),
     ("<constants::Class as std::convert::Into", m_into_enum_const),
